@@ -1,9 +1,9 @@
 package scen
 
 import (
-	"strings"
 	"context"
 	"fmt"
+	"strings"
 	"time"
 
 	"github.com/ThreeDotsLabs/watermill/message"
@@ -43,7 +43,7 @@ func c10Body(r *Run) {
 		startupCancel = t.Int(40)
 		nLate = 0
 	}
-	ending := t.Int(3) // 0 Close, 1 cancel Run context, 2 stop every handler
+	ending := t.Int(3)    // 0 Close, 1 cancel Run context, 2 stop every handler
 	secondRun := t.Int(4) // 0 none, 1 while running, 2 after the router closed, 3 while the first Run is still loading its plugin
 	// a fifth of the runs: a handler invocation that outlives CloseTimeout (1 s here) is in flight when the end comes:
 	// the close then times out, and Run still has to return
@@ -382,7 +382,47 @@ func c10Body(r *Run) {
 	}
 }
 
+// A start that fails: the Subscribe call of one of the registered handlers returns an error while Run starts them.
+// Whatever Run reports, Running() must stay open (and IsRunning false): a registered handler holds no subscription.
+func c10FailedStart(r *Run) {
+	t := r.T
+	ps := gochannel.NewGoChannel(gochannel.Config{OutputChannelBuffer: int64(t.Int(3))}, nil)
+	counting := NewCountingSubscriber(ps)
+	rig := newRouterRig(r, 10*time.Second)
+	n := 1 + t.Skewed(3)
+	failAt := t.Int(n)
+	for i := 0; i < n; i++ {
+		topic := fmt.Sprintf("in-%d", i)
+		if i == failAt {
+			counting.FailOnce[topic] = true
+		}
+		rig.Router.AddNoPublisherHandler(fmt.Sprintf("h%d", i), topic, counting, func(m *message.Message) error { return nil })
+	}
+	r.Describe("%d handlers; the first Subscribe call for handler h%d fails while Run starts the handlers", n, failAt)
+	r.Fault("subscribe-error-at-start")
+	check := func(when string) {
+		if rawClosed(rig.Router.Running()) || rig.Router.IsRunning() {
+			r.Fail("C10.R1", "Running() was closed before every registered handler held its subscription", "%s: h%d never got a subscription (its Subscribe call failed), Running() closed=%v IsRunning=%v",
+				when, failAt, rawClosed(rig.Router.Running()), rig.Router.IsRunning())
+		}
+	}
+	rig.StartAsync()
+	r.Sim.Quiesce()
+	check("after the failed start")
+	if rig.RunReturned {
+		r.Probe("run-returned-after-failed-start")
+	}
+	go rig.Router.Close()
+	r.Sim.Quiesce()
+	ps.Close()
+}
+
 func init() {
+	Register(&Scenario{Prop: "C10", Name: "failed-start", Setup: func(r *Run) simrt.Config {
+		c := BaseConfig()
+		c.Horizon = 10 * time.Minute
+		return c
+	}, Body: c10FailedStart, Real: []string{"message.Router", "gochannel.GoChannel"}, Stubs: []string{"CountingSubscriber (the first Subscribe call on one topic fails)"}, Weight: 1})
 	Register(&Scenario{
 		Prop: "C10", Name: "lifecycle",
 		Setup: func(r *Run) simrt.Config {
@@ -394,7 +434,7 @@ func init() {
 			}
 			return c
 		},
-		Body:  c10Body,
+		Body: c10Body, Weight: 6,
 		Real:  []string{"message.Router (Run, RunHandlers, Running, Handler.Started/Stop/Stopped, watchAllHandlersStopped, Close)", "pubsub/gochannel.GoChannel (transport)"},
 		Stubs: []string{"CountingSubscriber wrapper", "ScriptedPublisher", "sync.* -> vsync"},
 	})
